@@ -49,6 +49,7 @@ type powerFS struct {
 	// generalised: the counted operation number failOp (write, file sync, dir sync,
 	// create, rename; see opEligible) returns an error and has no effect; <0: never
 	failOp      int
+	failWALOnly bool // Pebble: only WAL writes / fsyncs are failed
 	failRegular bool // regular tan: the fsync of a log file is not failed (it runs in a goroutine that panics)
 	failNow     bool
 	failedLabel string
@@ -58,6 +59,15 @@ type powerFS struct {
 // goroutine. remove/removeall belong to the background deletion worker (it
 // panics on an error), link/mkdir/lock/reuse are not used while saving.
 func (p *powerFS) opEligible(label string) bool {
+	if p.failWALOnly {
+		// the real Pebble store: only the write-ahead log, whose write / fsync errors
+		// surface on the goroutine that commits the batch. An error on an sstable /
+		// MANIFEST operation makes Pebble call Fatalf (= panic, kv_pebble.go) inside
+		// its own flush / compaction goroutine: the process dies, which an in-process
+		// harness cannot survive
+		return strings.HasSuffix(label, ".log") &&
+			(strings.HasPrefix(label, "write ") || strings.HasPrefix(label, "sync "))
+	}
 	switch {
 	case strings.HasPrefix(label, "write "), strings.HasPrefix(label, "syncdir "),
 		strings.HasPrefix(label, "create "), strings.HasPrefix(label, "rename "):
